@@ -9,6 +9,8 @@ import (
 	"encoding/hex"
 	"encoding/json"
 	"fmt"
+	"github.com/form3tech-oss/f1/v2/internal/verifsim/simsignal"
+	"os"
 	"sort"
 	"strings"
 	"time"
@@ -225,6 +227,15 @@ func dur(ns int64) time.Duration { return time.Duration(ns) }
 
 // atomicCancel records the cancellation instant and cancels in one step (no scheduling point in between:
 // this file is not instrumented), so that "cancelled" in the ground truth means cancel() has been called.
+// signalCancel delivers SIGINT the way the operating system would (to whatever f1 has registered since generation
+// since); the run counts as cancelled when a registration of its own received it.
+func signalCancel(env *Env, since int, flag *bool, ns *int64, seq *uint64) {
+	if simsignal.Deliver(os.Interrupt, since) > 0 {
+		atomicCancel(env, flag, ns, seq, func() {})
+		env.Hit("fault.signal_delivered")
+	}
+}
+
 func atomicCancel(env *Env, flag *bool, ns *int64, seq *uint64, cancel func()) {
 	if !*flag {
 		*flag = true
